@@ -273,7 +273,7 @@ def run(tier, seed):
 
     # generated notations, registered under ids after the shipped ones
     gen = G.Gen(rng, notations=[nt for nt in sides.shipped if nt.family is None and nt.chunks is not None],
-                syms=(1, 2, 3) + tuple(PS.BRACE_SYMS))
+                syms=(1, 2, 3) + tuple(k for k in PS.BRACE_SYMS if k not in PS.TAB_SYMS))
     generated = []
     for j in range(12):
         nt = gen.random_notation(2, f'g{j}')
@@ -336,19 +336,21 @@ def run(tier, seed):
     #     applications of the notation ITSELF (left/right nesting).  One differing position = the scope of
     #     C19_hole_distinguishes ('format-drops-argument'); several = 'ambiguous-rendering'.
     import itertools
-    atoms = [('e', 10), ('e', 11), ('e', 12), ('y', 201), ('y', 200), ('y', 1)]
+    atoms = [('e', 10), ('e', 11), ('e', 12), ('y', 201), ('y', 200), ('y', 1),
+             ('y', 210), ('y', 211), ('y', 212), ('y', 214)]      # ... and names differing only in white space
     dreqs, djobs = [], []
     for nt in allnots:
         if nt.arity < 1:
             continue
         nested = [nt(*[atoms[(s0 + j) % 3] for j in range(nt.arity)]) for s0 in (0, 1)]
         pool = atoms + nested
-        if len(pool) ** nt.arity <= 160:
+        nestk = (len(atoms), len(atoms) + 1)
+        if len(pool) ** nt.arity <= 200:
             tuples = list(itertools.product(range(len(pool)), repeat=nt.arity))
         else:
             tuples = {tuple(rng.randrange(len(pool)) for _ in range(nt.arity)) for _ in range(150 if quick else 600)}
-            for pos in range(nt.arity):           # the self-nesting pairs are always there
-                for k in (6, 7):
+            for pos in range(nt.arity):           # self-nesting, brace-named and white-space variants are always there
+                for k in nestk + (3, 4, 6, 7, 8, 9):
                     for base in (0, 1, 2):
                         t = [base] * nt.arity
                         t[pos] = k
